@@ -51,6 +51,9 @@ def cases(ctx):
         order = [1, 0, 0, 1] if k % 2 else [0, 1, 1, 0]
         for enc in order:
             yield dict(op="crc %s %d" % (m, enc), real=(C, [m, bool(enc)]), expect=str(spec_crc(f, enc)), tag="sequence")
+    for _ in range(ctx.n(2000, 20000)):
+        f = spec.background(rng, rng.choice([24, 32, 56, 112, 120]), "rand")
+        yield dict(op="spec.remH " + hex_of(f), real=("h:props.C01.oracle_rem", [hex_of(f)]), tag="spec-tie", trivial=True)
     yield from one([0] * 56, 0, "zero")
     yield from one([1] * 112, 0, "ones")
     # --- the property itself on the real code: parity closure and error detection
@@ -106,6 +109,11 @@ def cases(ctx):
             for q in rng.sample(range(5, 88), rng.randrange(1, 5)):
                 dd[q] ^= 1
             yield dict(op=None, real=("h:props.C01.check_msg", [hex_of(dd + bits_of(p, 24))]), expect="False", tag="check_msg-data-flip")
+
+
+def oracle_rem(m):
+    """remainder of the frame polynomial modulo the generator, by integer polynomial division (harness oracle)"""
+    return spec.polymod(int(m, 16), len(m) * 4)
 
 
 def pred_nonzero(real_out):
